@@ -172,7 +172,10 @@ Definition restart (s : sh) : sh :=
      bl := sweep (now s) (bl s); pendbl := []; wl := wl s; bk := fun _ => None |}.
 
 (* ---------- calls and threads ---------- *)
-Inductive hkind := HBad | HAnonOk | HAnonFail.   (* unknown client id | first connection ok | credential generation fails *)
+(* handshake shapes: unknown client id (ClientID <> 0) | ClientID = 0 with a token the handler accepts as a first
+   connection, credential generation ok / failing | ClientID = 0 with any other token (step 4 does not register;
+   the lookup of client 0 fails).  EVERY ClientID = 0 handshake passes gate 3, whatever its token. *)
+Inductive hkind := HBad | HAnonOk | HAnonFail | HZeroJunk.
 Definition hk_anon (k : hkind) : bool := match k with HBad => false | _ => true end.
 Definition hk_fails (k : hkind) : bool := match k with HAnonOk => false | _ => true end.
 
@@ -360,3 +363,16 @@ Definition bucket_step (C : cfg) (st : option bucket * Z) (tb : Z * bop) : optio
   end.
 Definition bucket_run (C : cfg) (b : option bucket) (ops : list (Z * bop)) : option bucket * Z :=
   fold_left (bucket_step C) ops (b, 0).
+
+(* ---------- registrations of one address: ClientID = 0 handshakes with arbitrary token forms ----------
+   registers f: step 4 accepts token form f as a first connection; charged f: gate 3 charges the bucket for it.
+   One event = one such handshake at time t (gates 1-2 passed); counts the registrations granted. *)
+Definition reg_step (C : cfg) (registers charged : nat -> bool) (st : option bucket * Z) (tf : Z * nat)
+  : option bucket * Z :=
+  let '(b, regs) := st in
+  if charged (snd tf)
+  then let '(b', ok) := take C (fst tf) 1 b in
+       (Some b', if ok && registers (snd tf) then regs + 1 else regs)
+  else (b, if registers (snd tf) then regs + 1 else regs).
+Definition reg_run (C : cfg) (registers charged : nat -> bool) (b : option bucket) (h : list (Z * nat))
+  : option bucket * Z := fold_left (reg_step C registers charged) h (b, 0).
